@@ -18,6 +18,8 @@ def run(ctx):
     rule_F4(ctx)
     rule_F5(ctx)
     rule_F7(ctx)      # scalar vs vectorised must not differ through in-place user code
+    from ..effects import rule_F12
+    rule_F12(ctx)      # the likelihood's own return array is never stored
     rule_F8(ctx)      # ... nor through shape-dependent arithmetic in the transform
     rule_G1(ctx)      # ... nor on what another sampler did earlier in the process
     rule_F10(ctx)     # vectorised / pooled evaluation never meets the worker-only stub
